@@ -56,6 +56,10 @@ static inline T __vumax_##W(T a, T b){ return a > b ? a : b; } \
 static inline T __vsmin_##W(T a, T b){ return (S)a < (S)b ? a : b; } \
 static inline T __vsmax_##W(T a, T b){ return (S)a > (S)b ? a : b; }
 VRT_MINMAX(8, uint8_t, int8_t) VRT_MINMAX(16, uint16_t, int16_t) VRT_MINMAX(32, uint32_t, int32_t) VRT_MINMAX(64, uint64_t, int64_t)
+#define VRT_SAT(W, T) \
+static inline T __vuadd_sat_##W(T a, T b){ T r = (T)(a + b); return r < a ? (T)~(T)0 : r; } \
+static inline T __vusub_sat_##W(T a, T b){ return a > b ? (T)(a - b) : (T)0; }
+VRT_SAT(8, uint8_t) VRT_SAT(16, uint16_t) VRT_SAT(32, uint32_t) VRT_SAT(64, uint64_t)
 static inline uint64_t __vctlz_64(uint64_t x, uint8_t z){ uint64_t n = 0; for (int i = 63; i >= 0; i--) { if ((x >> i) & 1) break; n++; } return n; }
 static inline uint32_t __vctlz_32(uint32_t x, uint8_t z){ uint32_t n = 0; for (int i = 31; i >= 0; i--) { if ((x >> i) & 1) break; n++; } return n; }
 static inline uint64_t __vcttz_64(uint64_t x, uint8_t z){ uint64_t n = 0; for (int i = 0; i < 64; i++) { if ((x >> i) & 1) break; n++; } return n; }
